@@ -2,6 +2,9 @@ SPECIFICATION Spec
 CONSTANTS
   SWriters = 2
   SPer = 1
+  DWriters = 1
+  DPer = 2
+  SharedEncoder = FALSE
   SendLock = FALSE
-INVARIANTS FramingIntact StreamOrder
+INVARIANTS FramingIntact StreamOrder NoCorruptMessage
 CHECK_DEADLOCK FALSE
